@@ -16,7 +16,7 @@ import qp  # noqa: E402
 from common import Ctx, InfraError  # noqa: E402
 
 ENTRY = "DriverC16.lean"
-LEAN_TARGETS = ["QuriVerif.Props.C16", "QuriVerif.Driver.C16"]
+LEAN_TARGETS = ["QuriVerif.Props.C16", "QuriVerif.Props.C16Lift", "QuriVerif.Driver.C16"]
 LEAN_TARGETS_THOROUGH = ["QuriVerif.Props.C16Deep"]
 FINDING_BIT64 = "superposition-lowest-bit-64"
 UNIT = math.pi / 64.0  # grid angle unit
@@ -1748,10 +1748,11 @@ def run(ctx: Ctx, replay=None) -> int:
         "GeneralCircuitQuantumState / QuantumStateVector freeze/`+` of circuits is the Rust binary (aliasing of circuits: C20)",
     ]
     targets = list(LEAN_TARGETS) + (LEAN_TARGETS_THOROUGH if not ctx.quick() else [])
-    mods = ["QuriVerif.Props.C16"] + (["QuriVerif.Props.C16Deep"] if not ctx.quick() else [])
+    mods = ["QuriVerif.Props.C16", "QuriVerif.Props.C16Lift"] + (["QuriVerif.Props.C16Deep"] if not ctx.quick() else [])
     ok = ctx.prove(targets, mods)
     if ok:
         names = [f"QV.Props.C16.{n}" for _, n, _ in ctx.count_obligations(["QuriVerif.Props.C16"])]
+        names += [f"QV.Props.C16Lift.{n}" for _, n, _ in ctx.count_obligations(["QuriVerif.Props.C16Lift"]) if n not in ("chain_track", "chainS_track")]
         if not ctx.quick():
             names += [f"QV.Props.C16Deep.{n}" for _, n, _ in ctx.count_obligations(["QuriVerif.Props.C16Deep"])]
         ctx.audit(names, mods)
